@@ -7,6 +7,7 @@ import (
 	"sort"
 	"strings"
 	"testing"
+	"unicode"
 
 	"pgregory.net/rapid"
 	"verifharness/hx"
@@ -344,6 +345,37 @@ func TestC13(t *testing.T) {
 						if flip {
 							c.Section += "(other-case)"
 						}
+						if !run(c) {
+							return
+						}
+					}
+				}
+				// a fresh pair of keys that differ only in the case of letters, including letters outside
+				// ASCII, in mappings with case-insensitive names
+				if u := wf.UserMapOf(m); wf.SectionOf(m) == nil && u != nil && u.CaseInsensitive && len(m.Keys) > 0 {
+					names := []string{"école", "ärger_ö", "x-é", "naïve", "straße_ü", "zz_plain"}
+					n1 := names[mi%len(names)]
+					n2 := strings.ToUpper(n1)
+					if mi%2 == 0 {
+						// only the non-ASCII letters change case
+						n2 = strings.Map(func(c rune) rune {
+							if c > 127 {
+								return unicode.ToUpper(c)
+							}
+							return c
+						}, n1)
+					}
+					if n2 != n1 {
+						k := (mi * 3) % len(m.Keys)
+						k1, v1 := m.Keys[k].Clone(), m.Vals[k].Clone()
+						k2, v2 := m.Keys[k].Clone(), m.Vals[k].Clone()
+						k1.Val, k2.Val = n1, n2
+						m.Keys = append(m.Keys, k1, k2)
+						m.Vals = append(m.Vals, v1, v2)
+						mut := ye.Emit(w.Root, lay)
+						c := &c13Case{Mutated: mut, Kind: "duplicate", Section: "user:" + u.Name + "(fresh-pair-other-case)", Key: n2, Line: k2.Line, Col: k2.Col}
+						m.Keys = m.Keys[:len(m.Keys)-2]
+						m.Vals = m.Vals[:len(m.Vals)-2]
 						if !run(c) {
 							return
 						}
